@@ -54,6 +54,6 @@ def check(seed, tier):
         "rule": "one case = one generated input (2-6 functions calling all trigger symbols) analysed N times in fresh processes, all 19 "
                 "checks, odd runs with reversed --partial order; non-trivial = the output has >= 4 warnings; distinct by case hash",
         "samples": [str(s)[:1200] for s in meta["samples"][:1]],
-        "runs_per_input": 8 if tier == "quick" else 16,
+        "runs_per_input": 10 if tier == "quick" else 16,
         "mc_runs": rep.cov.get("mc_runs"), "trusted_base": TRUSTED,
     }, ["fresh processes give fresh RandomState seeds; thread scheduling of the log collector is whatever the OS does during the runs"])
